@@ -1,7 +1,7 @@
 (* Dispatch.v -- request decoder / response encoder for the extracted model.
    One request = one S-expression (op arg ...); one response = one S-expression. *)
 From Coq Require Import String.
-From Torf Require Import Base Sexp Bencode PyVal Geometry Stream History Convert Validate Export.
+From Torf Require Import Base Sexp Bencode PyVal Geometry Stream History Convert Validate Export MonList.
 Open Scope Z_scope.
 
 Definition getFile (s : sexp) : option file := getPair getZ getZ s.
@@ -304,6 +304,68 @@ Definition handle_meta (op : list N) (args : list sexp) : option sexp :=
     | _ => None end
   else None.
 
+(* ---- tracker / seed lists (C16) ---- *)
+Definition pool_valid (u : Z) : bool := (0 <=? u) && (u <? 6).
+Definition pool_norm (u : Z) : Z := if u =? 4 then 5 else u.
+
+Definition getLop (s : sexp) : option lop :=
+  match s with
+  | L [A o] => if atom_is "clear" o then Some LClear else None
+  | L [A o; a] =>
+      if atom_is "append" o then option_map LAppend (getZ a)
+      else if atom_is "remove" o then option_map LRemove (getZ a)
+      else if atom_is "del" o then option_map LDel (getZ a)
+      else if atom_is "pop" o then option_map LPop (getZ a)
+      else if atom_is "extend" o then option_map LExtend (getZs a)
+      else None
+  | L [A o; a; b] =>
+      match getZ a, getZ b with
+      | Some x, Some y => if atom_is "insert" o then Some (LInsert x y)
+                          else if atom_is "setfresh" o then Some (LSetFresh x y) else None
+      | _, _ => None end
+  | _ => None
+  end.
+
+Definition getKind (s : sexp) : option seedkind :=
+  match s with A a => if atom_is "web" a then Some Web else if atom_is "http" a then Some Http else None | _ => None end.
+
+Definition getTop (s : sexp) : option top :=
+  match s with
+  | L [A o] => if atom_is "tclear" o then Some TClear else None
+  | L [A o; a] =>
+      if atom_is "tset" o then option_map TSet (getList getZs a)
+      else if atom_is "tappend" o then option_map TAppend (getZs a)
+      else if atom_is "tdel" o then option_map TDel (getZ a)
+      else if atom_is "textend" o then option_map TExtend (getList getZs a)
+      else None
+  | L [A o; a; b] =>
+      if atom_is "tinsert" o then match getZ a, getZs b with Some i, Some u => Some (TInsert i u) | _, _ => None end
+      else if atom_is "tsetitem" o then match getZ a, getZs b with Some i, Some u => Some (TSetItem i u) | _, _ => None end
+      else if atom_is "ttier" o then match getZ a, getLop b with Some i, Some l => Some (TTier i l) | _, _ => None end
+      else if atom_is "sset" o then match getKind a, getZs b with Some k, Some u => Some (SSet k u) | _, _ => None end
+      else if atom_is "sop" o then match getKind a, getLop b with Some k, Some l => Some (SOp k l) | _, _ => None end
+      else None
+  | _ => None
+  end.
+
+Definition optZ_sexp (o : option Z) : sexp := match o with Some z => ZA z | None => Sy "none" end.
+Definition optZL_sexp (o : option (list Z)) : sexp := match o with Some l => ZL l | None => Sy "none" end.
+
+Definition mdstate_sexp (m : mdstate) : sexp :=
+  L [optZ_sexp (md_announce m);
+     match md_alist m with Some t => L (List.map ZL t) | None => Sy "none" end;
+     optZL_sexp (md_web m); optZL_sexp (md_http m)].
+
+Definition handle_monlist (op : list N) (args : list sexp) : option sexp :=
+  if atom_is "monlist.run" op then
+    match args with
+    | [ops] => match getList getTop ops with
+               | Some ops => Some (L (List.map (fun rm => L [res_sexp unit_sexp (fst rm); mdstate_sexp (snd rm)])
+                                              (run pool_valid pool_norm init ops)))
+               | None => None end
+    | _ => None end
+  else None.
+
 Definition handle (req : sexp) : sexp :=
   match req with
   | L (A op :: args) =>
@@ -315,7 +377,11 @@ Definition handle (req : sexp) : sexp :=
           | None =>
               match handle_meta op args with
               | Some r => r
-              | None => bad_request
+              | None =>
+                  match handle_monlist op args with
+                  | Some r => r
+                  | None => bad_request
+                  end
               end
           end
       end
